@@ -73,6 +73,12 @@ def make_message(kind_, key, src):
             return m, True
         except Exception:
             return m, False
+    if kind_.startswith("range_"):
+        # header values outside what the identifier can carry (priority 3 bits, source 8 bits): cannot be sent, by specification
+        attr, val = {"range_priority_8": ("priority", 8), "range_priority_9": ("priority", 9), "range_priority_neg": ("priority", -1),
+                     "range_source_256": ("source", 256), "range_source_neg": ("source", -1)}[kind_]
+        setattr(m, attr, val)
+        return m, False
     if kind_.startswith("header_"):
         # a header attribute that is missing or of the wrong type (e.g. a message parsed from JSON with "source": null)
         attr, val = {"header_source_none": ("source", None), "header_priority_none": ("priority", None), "header_priority_str": ("priority", "3")}[kind_]
@@ -99,7 +105,8 @@ def cases(draw, client):
     for i in range(n):
         k = draw(st.sampled_from(["ok", "ok", "ok", "ok", "ok", "missing_field", "out_of_range", "unknown_pgn", "bad_lookup_name", "no_encoder_field_type",
                                    "odd_destination_neg", "odd_destination_256", "odd_destination_big", "odd_destination_huge",
-                                   "header_source_none", "header_priority_none", "header_priority_str"]))
+                                   "header_source_none", "header_priority_none", "header_priority_str",
+                                   "range_priority_8", "range_priority_9", "range_priority_neg", "range_source_256", "range_source_neg"]))
         key = draw(st.sampled_from(FAST + FAST + SINGLE + (["59904/isoRequest"] * 4 if k.startswith("odd") else [])))
         msgs.append((k, key, i + 1))
     pauses = draw(st.lists(st.tuples(st.integers(1, 30), st.integers(1, 12)), min_size=0, max_size=6))
@@ -151,7 +158,15 @@ def run_case(client, msgs, pauses, fail, stagger):
         elif isinstance(fail, (tuple, list)):
             s.gw.write_actions[s.base_writes + fail[1]] = ("pause_eof", fail[2])
         elif fail is not None:
-            s.gw.write_actions[s.base_writes + fail] = ("fail",)
+            import errno
+            excs = [ConnectionResetError("write failed"), BrokenPipeError(errno.EPIPE, "broken pipe"), TimeoutError(errno.ETIMEDOUT, "timed out"),
+                    OSError(errno.EIO, "input/output error"), OSError(errno.ENETDOWN, "network is down")]
+            try:
+                import serial
+                excs.append(serial.SerialException("device reports readiness to read but returned no data"))
+            except Exception:
+                pass
+            s.gw.write_actions[s.base_writes + fail] = ("fail", excs[(fail + len(msgs)) % len(excs)])
         tasks = []
         for (m, _), lag in zip(built, stagger):
             for _ in range(lag):
@@ -345,12 +360,79 @@ def _work(ctx: Ctx, item):
     ctx.hyp(one, cases(client), max_examples=n, name="send-" + client)
 
 
+def _all_definitions(ctx: Ctx, item):
+    """Every encodable definition with each of its fields removed in turn (and once complete), sent through one EByte client on one healthy
+    link: an incomplete message writes nothing and leaves the connection alone, the complete one writes the encoder's packets."""
+    from nmea2000.encoder import NMEA2000Encoder
+    from nmea2000.message import NMEA2000Field, NMEA2000Message
+    keys, = item
+    db = canboat.db()
+    s = aio.Session("ebyte")
+    plan = []
+    for key in keys:
+        d = db.by_key[key]
+        m0 = gen.benign_message(d)
+        if m0 is None:
+            continue
+        for removed in [None] + list(range(len(m0.fields))):
+            fl = [NMEA2000Field(id=f.id, name=f.name, value=f.value, raw_value=f.raw_value) for i, f in enumerate(m0.fields) if i != removed]
+            plan.append((key, removed, NMEA2000Message(PGN=d.pgn, id=d.id, fields=fl, source=1, destination=255, priority=3)))
+    results = []
+
+    async def main(s):
+        c = s.make_client()
+        await c.connect()
+        await asyncio.sleep(0.1)
+        for key, removed, m in plan:
+            n0 = len(s.gw.link.bytes_written())
+            links0, tr0 = len(s.gw.links), len(s.status_trace)
+            await c.send(m)
+            await asyncio.sleep(0)
+            results.append((key, removed, m, s.gw.link.bytes_written()[n0:], len(s.gw.links) - links0, [x for _, x in s.status_trace[tr0:]], c.state.name))
+            if c.state.name != "CONNECTED":
+                for _ in range(200):
+                    if c.state.name == "CONNECTED":
+                        break
+                    await asyncio.sleep(0.05)
+        await c.close()
+    outcome = s.run(main, max_steps=4_000_000)
+    enc = NMEA2000Encoder()
+    for key, removed, m, written, new_links, trace, state in results:
+        ctx.count()
+        ctx.nontrivial_extra += 1
+        case = {"all_definitions": key, "removed": removed}
+        if removed is None:
+            try:
+                want = b"".join(enc.encode_ebyte(m))
+            except Exception:
+                continue
+            # (the client's encoder and this one advance their fast-packet counters in step: every complete message is sent through both)
+            if written != want:
+                ctx.report(f"C19|ebyte|all-definitions|wrong-bytes", f"{key}: {len(written)} bytes written, the encoder produces {len(want)}", case)
+        else:
+            fid = m.fields[removed].id if removed < len(m.fields) else "last"
+            if written:
+                ctx.report(f"C19|ebyte|all-definitions|incomplete-message-written", f"{key} without its field number {removed}: {len(written)} bytes were written", case)
+            if new_links or trace or state != "CONNECTED":
+                ctx.report(f"C19|ebyte|all-definitions|connection-disturbed", f"{key} without its field number {removed}: status {trace}, {new_links} new connection(s), state {state}", case)
+    if outcome != "ok":
+        ctx.report(f"C19|ebyte|all-definitions|{outcome}", f"session ended with {outcome}", {"all_definitions": keys[0], "removed": None})
+    ctx.klass("all_definitions_sends", len(results))
+
+
 def run(ctx: Ctx):
+    enc_keys = [d.key for d in canboat.db().defs if d.encodable]
+    pmap(ctx, _all_definitions, [(enc_keys[i::16],) for i in range(16)])
     n = 100 if ctx.quick else 8000
     pmap(ctx, _work, [(k, n) for k in aio.CLIENT_KINDS for _ in range(4)])
 
 
 def replay(ctx: Ctx, case):
+    if "all_definitions" in case:
+        sub = Ctx(ctx.pid)
+        sub.known_open = {}
+        _all_definitions(sub, ([case["all_definitions"]],))
+        return [(b, v["what"], v["case"]) for b, v in sub.found.items() if v["case"].get("removed") == case.get("removed")]
     msgs = [tuple(m) for m in case["messages"]]
     pauses = [tuple(p) for p in case["pauses"]]
     fail = tuple(case["fail"]) if isinstance(case["fail"], list) else case["fail"]
